@@ -113,3 +113,16 @@ Theorem C19_code_stack_push_followed : forall refuse res sub stk w,
      In (SetPtr (PNew 0) "item" (PArg 1)) (p_effs p)).
 Proof. exact code_stack_push_followed. Qed.
 Print Assumptions C19_code_stack_push_followed.
+(* ---- translator tie, second wave: _cbor_stack_push as translated from this run's clang AST refuses exactly at
+   the configured limit, without asking the allocator, and otherwise asks for one record and counts it ---- *)
+From Coq Require Import ZArith.
+From CB Require Import PStackGuard GenLeafTypes Bridge_leaf_stack.
+From CBGen Require Import Gen_leaf.
+Theorem C19_code_stack_push : forall n granted, n < 2^64 -> n <= gen_CBOR_MAX_STACK_SIZE ->
+  g_cbor_stack_push (Z.of_N n) granted = zoutcome (stack_push_outcome gen_CBOR_MAX_STACK_SIZE gen_sizeof_rec n granted).
+Proof. exact bridge_stack_push. Qed.
+Theorem C19_code_stack_push_guard : forall f stk, len stk < 2^64 -> len stk <= gen_CBOR_MAX_STACK_SIZE ->
+  (fst (fst (g_cbor_stack_push (Z.of_N (len stk)) true)) = None <-> push gen_CBOR_MAX_STACK_SIZE f stk = fail_mem stk) /\
+  (snd (fst (g_cbor_stack_push (Z.of_N (len stk)) true)) = false <-> push gen_CBOR_MAX_STACK_SIZE f stk = ok_stack (f :: stk)).
+Proof. exact bridge_stack_push_guard. Qed.
+Print Assumptions C19_code_stack_push.
